@@ -2,8 +2,22 @@
 and monitor: harness/exec_props.py (monitor family 5 of Exec/ExecTrace.v)."""
 from harness import exec_props as X
 
-BIAS = {}
-TINY = None
+# random histories: two of three are driven to completion by a fair tail (every live job gets a terminal
+# report with probability 0.84 per poll, no query faults, no cancel) after a random prefix of 0-8 polls in
+# which hardware failures, timeouts (restarts), cancels, failing submissions and query faults do occur;
+# throttles 1-3 are over-represented (a slot leak shows up as a fair tail that never terminates: the
+# runner flags a fair history still RUNNING after 3n + sum(rlimit) + 8 polls, the bound of C05_phi_bound)
+BIAS = {"fair_after": [None, 0, 2, 3, 5, 8], "throttled": True, "max_polls": 12, "fair_bound": 80,
+        "profiles": ["mixed", "mixed", "happy", "timeout", "hw", "failing", "failcancel"],
+        "cancel_p": 0.05, "qerr_p": 0.01, "qnojobs_p": 0.05, "sub_ok_p": 0.85}
+# exhaustive tiny scope: at every poll a cancel request may arrive and every queried job is
+# absent / FINISHED / FAILED / TIMEDOUT / HWFAILURE / CANCELLED -- every verdict branch
+# (FINISHED, FAILURE, CANCELLED by request, CANCELLED by report) on every tiny graph
+TINY = {"depth_quick": 3, "depth_thorough": 4, "graphs_quick": 3,
+        "cfgs": [{"throttle": 0, "attempts": 1, "dry": False}, {"throttle": 1, "attempts": 1, "dry": False}],
+        "enum": {"q": False, "cancel": True, "subs": False,
+                 "kinds": ["absent", "FINISHED", "FAILED", "TIMEDOUT", "HWFAILURE", "CANCELLED"]},
+        "limit_quick": 2500, "limit_thorough": 60000}
 
 
 def run(ck):
